@@ -93,6 +93,9 @@ class _LocalDateTimeParseBucket(_ParseBucket[LocalDateTime]):
         if hour_24:
             if time != LocalTime.midnight:
                 return ParseResult._invalid_hour_24(text)
+            if date._days_since_epoch >= date.calendar._max_days:
+                # 24:00 on the last day of the calendar denotes a date-time beyond the supported range.
+                return ParseResult._field_value_out_of_range_post_parse(text, 24, "H", LocalDateTime)
             date = date.plus_days(1)
 
         return ParseResult.for_value(date + time)
